@@ -6,6 +6,7 @@ from .. import inputs
 from . import geom
 
 SPEC = dict(
+    technique='Lean 4 proof (slerp end points, range, value, unit norm; regenerated model) + float monitor of the matrix/class interpolators',
     lean_modules=['SmVerif.Props.C11'],
     groups=['Quaternions', 'Transforms3d', 'Transforms2d'],
     expected_untranslatable=('trinterp_T', 'trinterp_T_nostart'),
